@@ -44,7 +44,7 @@ func main() {
 	f := lib.ParseFlags()
 	initFixtures()
 	res := lib.NewResult("case = one state view (node, operation index, head | block by number | block by hash) read over " +
-		"9 addresses x (class hash, nonce, 5 slots) + 7 class hashes x (class, compiled class hash); " +
+		"9 addresses x (class hash, nonce, 5 slots, last-update block of the slots) + 7 class hashes x (class, compiled class hash, compiled class hash v2); " +
 		"non-trivial = a historical view in which at least one answer differs from the answer at the head")
 	// private to this process: concurrent runs (other seeds, replays) must not share it
 	scratch, err := os.MkdirTemp(os.TempDir(), "aC03-run-")
@@ -84,7 +84,7 @@ func main() {
 	}
 
 	t0 := time.Now()
-	keyOrderCheck(res)
+	keyOrderCheck(res, f.Driver)
 	raceProbe(res, false)
 	raceProbe(res, true)
 	readErrorProbe(res, false)
@@ -109,7 +109,9 @@ func main() {
 	root := lib.NewRNG(f.Seed)
 	nRandom := f.Scale(30, 160)
 	for i := 0; i < nRandom; i++ {
-		cfg := Config{Name: fmt.Sprintf("random-%d", i), SrcNew: i%2 == 1, Dst: []bool{false, true}}
+		// every second pair of histories runs on destinations built as node/node.go builds them (seeded
+		// retention floor: the production path of StateAtBlockNumber)
+		cfg := Config{Name: fmt.Sprintf("random-%d", i), SrcNew: i%2 == 1, Dst: []bool{false, true}, Seeded: i%4 < 2}
 		sc := scenario{cfg: cfg, seed: root.Uint64(), n: f.Scale(24, 60), maxH: f.Scale(9, 16)}
 		switch {
 		case i%10 == 7:
@@ -132,7 +134,7 @@ func main() {
 		}
 		// a few long chains
 		for i := 0; i < 6; i++ {
-			scs = append(scs, scenario{cfg: Config{Name: fmt.Sprintf("long-%d", i), SrcNew: i%2 == 0, Dst: []bool{false, true}, Pebble: i%3 == 2},
+			scs = append(scs, scenario{cfg: Config{Name: fmt.Sprintf("long-%d", i), SrcNew: i%2 == 0, Dst: []bool{false, true}, Pebble: i%3 == 2, Seeded: i%2 == 1},
 				seed: root.Uint64(), n: 110, maxH: 40})
 		}
 	}
@@ -199,6 +201,7 @@ func main() {
 					} else if s.Op == "revert" {
 						e.hit("op:revert")
 					}
+
 					if err := e.Apply(s); err != nil {
 						res.Fatalf("scenario %s: step cannot be executed: %v", sc.cfg.Name, err)
 						break
@@ -290,7 +293,8 @@ func boundaryChain(name string, srcNew, pebble bool) scenario {
 		st(v, "sa 104 sk 2 8 sk 3 2"), // 256'
 		st(v, "sa 104 sk 2 0"),        // 257'
 	)
-	return scenario{cfg: Config{Name: name, SrcNew: srcNew, Dst: []bool{false, true}, Pebble: pebble}, steps: steps, checkFrom: check}
+	// the pebble one on processes with a seeded retention floor (the way a node builds them)
+	return scenario{cfg: Config{Name: name, SrcNew: srcNew, Dst: []bool{false, true}, Pebble: pebble, Seeded: pebble}, steps: steps, checkFrom: check}
 }
 
 func pick(c bool, a, b string) string {
